@@ -64,6 +64,10 @@ type ShipConnection struct {
 
 	mux       sync.Mutex
 	bufferMux sync.Mutex
+
+	// serializes everything driving the handshake state machine: incoming messages,
+	// timeouts and the user approving or denying a pending request
+	handshakeMux sync.Mutex
 }
 
 var _ api.ShipConnectionInterface = (*ShipConnection)(nil)
@@ -115,6 +119,9 @@ func (c *ShipConnection) ShipHandshakeState() (model.ShipMessageExchangeState, e
 
 // invoked when pairing for a pending request is approved
 func (c *ShipConnection) ApprovePendingHandshake() {
+	c.handshakeMux.Lock()
+	defer c.handshakeMux.Unlock()
+
 	state := c.getState()
 	if state != model.SmeHelloStatePendingListen {
 		// TODO: what to do if the state is different?
@@ -134,6 +141,9 @@ func (c *ShipConnection) ApprovePendingHandshake() {
 
 // invoked when pairing for a pending request is denied
 func (c *ShipConnection) AbortPendingHandshake() {
+	c.handshakeMux.Lock()
+	defer c.handshakeMux.Unlock()
+
 	state := c.getState()
 	if state != model.SmeHelloStatePendingListen && state != model.SmeHelloStateReadyListen {
 		// TODO: what to do if the state is differnet?
